@@ -12,7 +12,7 @@ QUICK_RUNS = 1200
 QUICK_BUDGET_S = 90
 THOROUGH_RUNS = 10 ** 7
 RULE = ("seeded store histories biased to private objects through every storing path (C_CreateObject, C_GenerateKey(Pair), C_UnwrapKey, C_DeriveKey, C_CopyObject with public-to-private upgrade, "
-        "C_SetAttributeValue) with PIN changes (C_SetPIN/C_InitPIN) and token re-initialisation in between, under objectstore.umask in {0077,0027,0022,0000} and process umasks {022,077,000,027}. "
+        "C_SetAttributeValue) with PIN changes (C_SetPIN/C_InitPIN) and token re-initialisation in between, under objectstore.umask in {0077,0027,0022,0000,0007, and the same octal values written without leading zero: 27,77,7,17,022,0} and process umasks {022,077,000,027}. "
         "The simulator scans the written file after EVERY simulated write(2) for every registered private byte-string value (unique, >= 12 bytes) and for the per-token master key and mask (known through "
         "the RNG seam); at disk dumps the independent decoder must open the master key with the SO PIN and with the user PIN (same key), decrypt every private value to what the API returned, and all IVs on disk "
         "must be pairwise distinct; every file/directory creation is checked against the configured umask. Distinct+non-trivial: (storing path, object kind, umask, PIN-history class).")
@@ -136,7 +136,8 @@ class GW(StoreW):
 def gen(seed, tier, index):
     g = GW(seed, "C06", big=(index % 7 == 0))
     r = g.r
-    g.knobs["conf"]["objectstore.umask"] = ["0077", "0027", "0022", "0000", "0077", "0007"][index % 6]
+    # softhsm2.conf(5): the value is octal - with or without a leading zero
+    g.knobs["conf"]["objectstore.umask"] = ["0077", "0027", "0022", "0000", "0077", "0007", "27", "77", "7", "17", "022", "0"][index % 12]
     if index % 11 == 10: g.knobs["conf"].pop("objectstore.umask")   # default: owner-only
     g.begin()
     for t in g.toks():
